@@ -271,6 +271,11 @@ func beUint64(b []byte) uint64 {
 // AllReturned reports operations that never returned.
 func (w *World) AllReturned(prop, oracle string) []Violation {
 	var vs []Violation
+	if w.Env.Step >= w.Env.Knobs.MaxSteps-1 {
+		// the step budget ran out: inconclusive for completion (a spin is
+		// judged by the hot-loop oracles of C17 / C11, which look at fake time)
+		return nil
+	}
 	for _, t := range w.Recs {
 		for _, r := range t {
 			if !r.Done {
